@@ -158,6 +158,14 @@ def run(chk: Check):
                                                             for _ in range(rng.randint(1, 3))] + [("BestBatchSampler", 2, None)]
             n = rng.randint(4, 7)
             chk.count("loss:infmix")
+        if i % 6 == 0:
+            # a search space of a handful of points that the run exhausts: every proposal of the de-duplicating samplers is a repeat through all
+            # their passes — whatever a sampler does then, it does it with its own seeded generator
+            cfg["dims"] = rng.choice([1, 2]); cfg["prec"] = 0.5
+            cfg["lineup"] = [(rng.choice(["RandomUniformSampler", "HaltonSampler", "RSequenceSampler"]), rng.randint(2, 3), None) for _ in range(rng.randint(2, 3))]
+            cfg["loss"] = rng.choice(["minkowski", "msm"]); cfg.pop("sim_length", None)
+            n = rng.randint(7, 10)
+            chk.count("space:exhausted_by_the_run")
         if i % 4 == 2:
             # a model that uses its theta argument as scratch space: in-process (n_jobs=1) it gets the calibrator's own array, in workers a pickled copy
             cfg["model"] = "mutating"
